@@ -28,7 +28,7 @@ REL = {1: 0.15, 2: 0.9}          # value codes of Purity!cells[..].rel
 BASE_FIX = 0.35
 X_LL = np.array([1.3, 0.9, 0.7, 0.4, 0.3, 0.2])
 PAIRS = [('ll', 'lp_same'), ('ll', 'll'), ('llfix', 'pm'), ('hlp', 'll'), ('fp', 'lp'), ('pm', 'lp'), ('hlp', 'fp'), ('ctrl', 'll'),
-         ('lp', 'ctrl'), ('fp', 'fp'), ('ppm', 'll'), ('ppm', 'ppm'), ('tg', 'pm'), ('tg', 'tg'), ('popnc', 'popnc'), ('popnc', 'hlp'), ('llallfix', 'll'), ('llallfix', 'llallfix')]
+         ('lp', 'ctrl'), ('fp', 'fp'), ('ppm', 'll'), ('ppm', 'ppm'), ('tg', 'pm'), ('tg', 'tg'), ('popnc', 'popnc'), ('popnc', 'hlp'), ('llallfix', 'll'), ('llallfix', 'llallfix'), ('ctrlpop', 'll'), ('ctrlpop', 'ctrlpop')]
 
 
 def user_models():
@@ -112,6 +112,25 @@ def build(kind, u, shared=None):
             data[nme] = (('chain', 'draw', 'individual'), arr)
         ds = xr.Dataset(data, coords={'chain': [0, 1], 'draw': [0, 1], 'individual': ['a', 'b']})
         return chi.PosteriorPredictiveModel(pm, ds), X_LL
+    if kind == 'ctrlpop':
+        # a hierarchical posterior built by the problem controller over a PooledModel used DIRECTLY as the population model (one
+        # individual); the controller also hands out a predictive model -- a sibling whose seeded sampling (for another number
+        # of individuals) is an evaluation like any other and leaves the posterior as it was
+        import pandas as pd
+        rows = []
+        for o in range(2):
+            for t, y in zip(u['times'][o], u['obs'][o]):
+                rows.append(dict(ID=1, Time=float(t), Observable='obs%d' % o, Value=float(y)))
+        frame = pd.DataFrame(rows)
+        c = chi.ProblemModellingController(u['mech'], [u['ems'][0].get_error_model(), u['ems'][1]])
+        c.set_population_model(chi.PooledModel(n_dim=7))
+        c.set_data(frame, output_observable_dict={OUTS[0]: 'obs0', OUTS[1]: 'obs1'}, dose_key=None, dose_duration_key=None)
+        c.set_log_prior(prior(7))
+        xp = np.array([1.3, 0.9, 0.7, 0.4, 0.15, 0.3, 0.2])
+        pmodel = c.get_predictive_model()
+        u.setdefault('sibling_evals', []).append(
+            lambda: pmodel.sample(xp.copy(), [0.5, 1.0], n_samples=4, seed=1, return_df=False))
+        return c.get_log_posterior(), xp
     if kind == 'ctrl':
         # a posterior built by the problem controller from the user's models and a data frame; the controller (kept in
         # u['ctrl']) is reconfigured LATER by the walk's mutation steps: the posterior it handed out must not notice
@@ -197,7 +216,7 @@ def evaluate(kind, obj, x, k):
             out = obj.sample(xin, tin, n_samples=2, seed=3, return_df=False)
             if list(tin) != [2.0, 0.5, 1.0]:
                 raise AssertionError('time array modified')
-        elif k == 'value' or (k == 'sample') or (k == 'pointwise' and kind in ('lp', 'lp_same', 'hlp', 'fp', 'ctrl')):
+        elif k == 'value' or (k == 'sample') or (k == 'pointwise' and kind in ('lp', 'lp_same', 'hlp', 'fp', 'ctrl', 'ctrlpop')):
             out = obj(xin)
         elif k == 'pointwise':
             out = obj.compute_pointwise_ll(xin)
@@ -232,7 +251,7 @@ def eff_kind(kind, k):
         return 'sample'
     if k == 'sample':
         return 'value'
-    if k == 'pointwise' and kind in ('lp', 'lp_same', 'hlp', 'fp', 'ctrl'):
+    if k == 'pointwise' and kind in ('lp', 'lp_same', 'hlp', 'fp', 'ctrl', 'ctrlpop'):
         return 'value'
     return k
 
@@ -368,6 +387,15 @@ def replay_walk(arg):
         if not np.array_equal(ref_, cp_, equal_nan=True):
             fail('Pure', 'earlier_result_changed_later', dict(step=st_))
             break
+    # seeded sampling of SIBLING objects handed out by the same controller (evaluations of theirs, not reconfigurations)
+    for fn_ in u.get('sibling_evals', []):
+        try:
+            with warnings.catch_warnings():
+                warnings.simplefilter('ignore')
+                fn_()
+            cnt['sibling_evaluations'] = cnt.get('sibling_evaluations', 0) + 1
+        except Exception as e:
+            fail('Pure', type(e).__name__, dict(error=repr(e), where='sibling evaluation'))
     # epilogue of every walk: each kind of evaluation once more at the ORIGINAL point, sampling first -- whatever the walk did
     # (and whatever sampling does), the answers are those of a fresh object
     for o in (1, 2):
